@@ -189,4 +189,123 @@ theorem sumF_splitP (K K1 K0 : String) (g : Nat → Nat) (e e1 : Nat) (R0 : List
         apply sum_map_congr; intro c0 hc0
         exact sum_range_indicator e1 (g c0) _ (hg c0 (List.mem_range.1 hc0))
 
+/-- the core of the split argument, for any summands related by "guarded by the partition function" -/
+theorem sumF_split_core (K K1 K0 : String) (g : Nat → Nat) (e e1 : Nat) (R0 : List (String × Nat))
+    (F' F : (String → Nat) → Int) (z : String → Nat)
+    (hg : ∀ k, k < e → g k < e1)
+    (hK : K ∉ R0.map (·.1)) (hK1 : K1 ∉ R0.map (·.1)) (hK0 : K0 ∉ R0.map (·.1))
+    (h10 : K1 ≠ K0)
+    (hF' : ∀ f, F' f = if f K1 = g (f K0) then F (upd f K (f K0)) else 0)
+    (hindep : ∀ f1 f2 : String → Nat, (∀ s, s ≠ K1 → s ≠ K0 → f1 s = f2 s) → F f1 = F f2) :
+    sumF ((K1, e1) :: (K0, e) :: R0) F' z = sumF ((K, e) :: R0) F z := by
+  simp only [sumF]
+  have inner : ∀ c1 c0, sumF R0 F'
+          (upd (upd z K1 c1) K0 c0) =
+        if c1 = g c0 then sumF R0 F (upd z K c0) else 0 := by
+    intro c1 c0
+    by_cases hc : c1 = g c0
+    · rw [if_pos hc]
+      apply sumF_rel (fun f1 f2 => f1 K1 = c1 ∧ f1 K0 = c0 ∧ ∀ s, s ≠ K1 → s ≠ K0 → upd f1 K c0 s = f2 s)
+      · intro r hr c f1 f2 ⟨p1, p0, ps⟩
+        have hr1 : K1 ≠ r := fun e => hK1 (e ▸ hr)
+        have hr0 : K0 ≠ r := fun e => hK0 (e ▸ hr)
+        have hrK : r ≠ K := fun e => hK (e ▸ hr)
+        refine ⟨by simp [upd, hr1, p1], by simp [upd, hr0, p0], ?_⟩
+        intro s hs1 hs0
+        have := ps s hs1 hs0
+        by_cases hsK : s = K
+        · have h2 : c0 = f2 s := by simpa [upd, hsK] using this
+          simp only [upd, hsK, if_true]
+          rw [if_neg (fun e => hrK e.symm), ← hsK]; exact h2
+        · by_cases hsr : s = r
+          · simp only [upd, hsK, hsr, if_true, if_false]
+            rw [if_neg hrK]
+          · simp only [upd, hsK, hsr, if_false] at this ⊢
+            exact this
+      · intro f1 f2 ⟨p1, p0, ps⟩
+        rw [hF' f1, if_pos (by rw [p1, p0, hc]), p0]
+        exact hindep _ _ ps
+      · refine ⟨by simp [upd, h10], by simp [upd], ?_⟩
+        intro s hs1 hs0
+        by_cases hsK : s = K
+        · simp [upd, hsK]
+        · simp [upd, hs1, hs0, hsK]
+    · rw [if_neg hc]
+      refine (sumF_congr_on _ _ (fun _ => 0) _ ?_).trans (sumF_zero _ _)
+      intro f hf
+      have p1 : f K1 = c1 := by rw [hf K1 hK1]; simp [upd, h10]
+      have p0 : f K0 = c0 := by rw [hf K0 hK0]; simp [upd]
+      rw [hF' f, if_neg (by rw [p1, p0]; exact hc)]
+  calc ((List.range e1).map fun c1 => ((List.range e).map fun c0 => sumF R0 _ (upd (upd z K1 c1) K0 c0)).sum).sum
+      = ((List.range e1).map fun c1 => ((List.range e).map fun c0 =>
+          if c1 = g c0 then sumF R0 F (upd z K c0) else 0).sum).sum := by
+        apply sum_map_congr; intro c1 _
+        apply sum_map_congr; intro c0 _
+        exact inner c1 c0
+    _ = ((List.range e).map fun c0 => ((List.range e1).map fun c1 =>
+          if c1 = g c0 then sumF R0 F (upd z K c0) else 0).sum).sum :=
+        sum_map_sum_comm _ _ _
+    _ = ((List.range e).map fun c0 => sumF R0 F (upd z K c0)).sum := by
+        apply sum_map_congr; intro c0 hc0
+        exact sum_range_indicator e1 (g c0) _ (hg c0 (List.mem_range.1 hc0))
+
+
+def renameRanks (K K0 : String) (out : List String) : List String := out.map fun r => if r = K then K0 else r
+
+theorem map_rename (K K0 : String) (f : String → Nat) (out : List String) :
+    (renameRanks K K0 out).map f = out.map (upd f K (f K0)) := by
+  unfold renameRanks
+  rw [List.map_map]
+  apply List.map_congr_left
+  intro r _
+  by_cases h : r = K <;> simp [upd, h]
+
+/-- the split Einsum with the upper coordinate of a partitioned OUTPUT rank not recorded (what is left after the footer's
+    `mergeRanks`): guarded original summand -/
+theorem summandP_split_merged {K K1 K0 : String} {g : Nat → Nat} {out : List String} {terms : List TermP}
+    (H : SplitHypP K K1 K0 out terms) (hcov : ∀ t ∈ terms, ∃ a ∈ t.accs, K ∈ a.ranks) (τ : List Nat) (f : String → Nat) :
+    summandP (renameRanks K K0 out) (terms.map (splitTermP K K1 K0 g)) τ f =
+      if f K1 = g (f K0) then summandP out terms τ (upd f K (f K0)) else 0 := by
+  unfold summandP
+  rw [map_rename]
+  by_cases hi : f K1 = g (f K0)
+  · rw [if_pos hi]
+    have hsum : ((terms.map (splitTermP K K1 K0 g)).map (termValP f)).sum = (terms.map (termValP (upd f K (f K0)))).sum := by
+      rw [List.map_map]
+      congr 1
+      apply List.map_congr_left
+      intro t ht
+      simp only [Function.comp, termValP, splitTermP, List.map_map]
+      congr 1
+      apply List.map_congr_left
+      intro a ha
+      simp only [Function.comp]
+      rw [accessValP_split K K1 K0 g f a (H.arity t ht a ha), if_pos (fun _ => hi)]
+    rw [hsum]
+  · rw [if_neg hi]
+    have hsum : ((terms.map (splitTermP K K1 K0 g)).map (termValP f)).sum = 0 := by
+      rw [List.map_map]
+      apply sum_map_zero
+      intro t ht
+      obtain ⟨a, ha, hKa⟩ := hcov t ht
+      simp only [Function.comp, termValP, splitTermP]
+      apply comb_zero_of_mem
+      simp only [List.map_map, List.mem_map]
+      refine ⟨a, ha, ?_⟩
+      simp only [Function.comp]
+      rw [accessValP_split K K1 K0 g f a (H.arity t ht a ha), if_neg (fun h => hi (h hKa))]
+    rw [hsum]; simp
+
+/-- **splitting a rank, the upper output coordinate merged away**: holds whether or not `K` is an output rank -/
+theorem sumF_splitP_merged (K K1 K0 : String) (g : Nat → Nat) (e e1 : Nat) (R0 : List (String × Nat))
+    (out : List String) (terms : List TermP) (τ : List Nat) (z : String → Nat)
+    (hg : ∀ k, k < e → g k < e1)
+    (hK : K ∉ R0.map (·.1)) (hK1 : K1 ∉ R0.map (·.1)) (hK0 : K0 ∉ R0.map (·.1))
+    (h10 : K1 ≠ K0)
+    (H : SplitHypP K K1 K0 out terms) (hcov : ∀ t ∈ terms, ∃ a ∈ t.accs, K ∈ a.ranks) :
+    sumF ((K1, e1) :: (K0, e) :: R0) (summandP (renameRanks K K0 out) (terms.map (splitTermP K K1 K0 g)) τ) z =
+      sumF ((K, e) :: R0) (summandP out terms τ) z :=
+  sumF_split_core K K1 K0 g e e1 R0 _ _ z hg hK hK1 hK0 h10 (summandP_split_merged H hcov τ)
+    (fun f1 f2 h => summandP_indep out terms τ H.fresh_out H.fresh f1 f2 h)
+
 end Nest
